@@ -293,8 +293,10 @@ func ThrowOnContextCancel[T any]() func(Observable[T]) Observable[T] {
 			)
 
 			return func() {
+				// deferred: the watcher goroutine must be released even if an upstream teardown panics
+				defer close(done)
+
 				sub.Unsubscribe()
-				close(done)
 			}
 		})
 	}
